@@ -31,10 +31,14 @@ class RandomModel(models.MultiImageModule):
             src = next(iter(x.values()))
             base = jnp.tanh(jnp.sum(src.reshape(src.shape[0], src.shape[1], src.shape[2], -1), axis=(0, 3)))
             out[k] = pos * jnp.sin(tot) + base.reshape((1,) + base.shape + (1,) * k[0]) * pos ** 2
+            if isinstance(aux, float):          # stateful variant: the output depends on the incoming state ...
+                out[k] = out[k] * (1.0 + aux)
+        if isinstance(aux, float):              # ... and the new state on the input and the incoming state
+            aux = float(np.tanh(aux + 0.37 * tot))
         return geom.MultiImage(out, x.D, x.is_torus), aux
 
 
-def ga(gname, sig, hi):
+def ga(gname, sig, hi, stateful=False):
     D = 2
     ops = groups()[gname]
     h = ops[hi]
@@ -44,13 +48,14 @@ def ga(gname, sig, hi):
     X = {k: rng.normal(size=(2, N, N) + (D,) * k[0]) for k in sig}
     inner = RandomModel([(k, 2) for k in reversed(sig)])
     m = models.GroupAverage(inner, list(ops), always_average=True)
-    y0 = m(make_mi(X, sig, D))[0]
-    yh = m(make_mi({k: np.stack([act_np(a, D, k[1], h) for a in X[k]]) for k in sig}, sig, D))[0]
+    st0 = 0.25 if stateful else None
+    y0 = m(make_mi(X, sig, D), st0)[0]
+    yh = m(make_mi({k: np.stack([act_np(a, D, k[1], h) for a in X[k]]) for k in sig}, sig, D), st0)[0]
     for t in y0.keys():
         exp = np.stack([act_np(a, D, t[1], h) for a in np.array(y0[t], dtype=np.float64)])
         if not np.allclose(np.array(yh[t]), exp, rtol=1e-3, atol=1e-3):
-            return f"GroupAverage over {gname}: block {t} not equivariant under h#{hi}", f"group_average {gname} {sig} h#{hi}"
-    return None, f"group_average {gname} {sig} h#{hi}"
+            return f"GroupAverage over {gname}: block {t} not equivariant under h#{hi}" + (" (stateful inner model)" if stateful else ""), f"group_average {gname} {sig} h#{hi} stateful={stateful}"
+    return None, f"group_average {gname} {sig} h#{hi} stateful={stateful}"
 
 
 def climate(order, consts):
@@ -114,7 +119,7 @@ def climate_call(order):
 def run_req(req):
     sc = req["scenario"]
     if sc == "group_average":
-        return ga(req["gname"], req["sig"], req["hi"])
+        return ga(req["gname"], req["sig"], req["hi"], bool(req.get("stateful")))
     if sc == "climate":
         return climate(req["order"], req.get("consts", []))
     if sc == "climate_call":
@@ -134,6 +139,8 @@ def standin(req):
         for sig in [[(0, 0), (1, 0)], [(0, 1), (1, 1)]]:
             for hi in range(len(ops)):
                 reqs.append(dict(scenario="group_average", gname=gname, sig=sig, hi=hi))
+                if sig[0] == (0, 0) and hi % 3 == 1:
+                    reqs.append(dict(scenario="group_average", gname=gname, sig=sig, hi=hi, stateful=True))
     for o in [[(0, 0), (0, 1), (1, 0)], [(1, 0), (0, 0), (0, 1)], [(0, 1), (1, 0), (0, 0)], [(1, 0)], [(0, 0), (1, 0)]]:
         reqs.append(dict(scenario="climate", order=o, consts=[]))
         if (0, 0) in o:
